@@ -188,6 +188,26 @@ def btc (res : Nat → Nat) (s : Store) (d : List Nat) : Out × Store :=
     | (some [], s') => (⟨.nil, []⟩, s')
     | (some ns, s') => (⟨.err, group res ns⟩, s')      -- the harness' uploader refuses, so each session errs
 
+/-! ### the lookup itself (bridge.go / pallet.go `IsProposalExecuted`) -/
+
+/-- what the destination is asked: the proposal's ORIGIN domain and deposit nonce (never its destination) -/
+structure Query where
+  domain : Nat
+  nonce  : Nat
+deriving DecidableEq, Repr
+
+def lookupQuery (source _destination nonce : Nat) : Query := ⟨source, nonce⟩
+
+/-- the destination's answer is handed on unchanged (an RPC error stays an error) -/
+def lookupAnswer (a : Ans) : Ans := a
+
+/-- the lookup is faithful: asked about the proposal's own identity, answer unchanged -/
+def PLookup (source nonce : Nat) (a : Ans) (q : Query) (r : Ans) : Prop :=
+  q.domain = source ∧ q.nonce = nonce ∧ r = a
+
+instance (s n : Nat) (a : Ans) (q : Query) (r : Ans) : Decidable (PLookup s n a q r) := by
+  unfold PLookup; infer_instance
+
 /-! ### histories -/
 
 /-- EVM / Substrate: the destination's executed set only grows -/
